@@ -224,6 +224,9 @@ class Body:
         for i in self.normal_blocks():
             bl = self.blocks[i]
             t = bl["t"]
+            if bl.get("inl_err"):
+                out.add(i)
+                continue
             if t["k"] == "call":
                 f = t.get("f", "")
                 if f.endswith("FromResidual::from_residual"):
@@ -788,11 +791,30 @@ def try_continuations(body, call_block):
                         elif v == "1":
                             brk.add(tgt)
     # direct match on the result
+    def drop_ladder(b0):
+        """the open-coded drop of a partially moved enum: a switch on its discriminant from which only drops, gotos, drop-flag
+        updates and the return are reachable — not an inspection by the program"""
+        seen, work = set(), list(body.succ(b0))
+        while work:
+            x = work.pop()
+            if x in seen:
+                continue
+            seen.add(x)
+            tx = body.term(x)
+            if tx["k"] not in ("drop", "goto", "return", "switch", "unreachable"):
+                return False
+            for sx in body.stmts(x):
+                if sx.get("r") == "discr":
+                    continue
+                if not (sx.get("r") == "use" and sx.get("o") and op_is_const(sx["o"][0]) and is_bare(sx["d"])):
+                    return False
+            work.extend(body.succ(x))
+        return bool(seen)
     for b in body.normal_blocks():
         for st in body.stmts(b):
             if st.get("r") == "discr" and place_local(st["p"]) in locs and is_bare(st["p"]):
                 tt = body.term(b)
-                if tt["k"] == "switch" and op_local(tt["on"]) == place_local(st["d"]):
+                if tt["k"] == "switch" and op_local(tt["on"]) == place_local(st["d"]) and not drop_ladder(b):
                     vals = dict((v, tg) for v, tg in tt["vals"])
                     if "0" in vals:
                         cont.add(vals["0"])
